@@ -271,6 +271,25 @@ def check_priority_req_store(p, r):
         calls.sort(key=lambda n: n.lineno)
         names = [c.func.attr for c in calls]
         why = f'expected super().append(item) then super().sort(key=lambda e: e.key), found {names}'
+        if names and set(names) <= {'append', 'insert'} and 'insert' in names:
+            # binary-search insertion into the (already sorted) queue: stable iff the newcomer goes *after* every waiting request with an equal key
+            ins = [c for c in calls if c.func.attr == 'insert'][0]
+            pos = ins.args[0] if ins.args else None
+            if isinstance(pos, ast.Name):
+                asg = [n for n in walk_no_nested(ap.node) if isinstance(n, ast.Assign) and any(isinstance(t, ast.Name) and t.id == pos.id for t in n.targets)]
+                pos = asg[-1].value if len(asg) == 1 else None
+            fn_name = (pos.func.id if isinstance(pos.func, ast.Name) else pos.func.attr) if isinstance(pos, ast.Call) and isinstance(pos.func, (ast.Name, ast.Attribute)) else None
+            itemp = [a.arg for a in ap.node.args.args if a.arg != 'self'][0]
+            if fn_name in ('bisect_left', 'insort_left'):
+                why = (f'the insertion point is {fn_name}(keys, {itemp}.key): a new request is placed *before* every waiting request with the same key - '
+                       f'first-come-first-served among equals is reversed')
+            elif fn_name in ('bisect_right', 'bisect') and len(pos.args) >= 2 and ast.unparse(pos.args[1]) == f'{itemp}.key' \
+                    and len(ins.args) == 2 and ast.unparse(ins.args[1]) == itemp:
+                fast = [c for c in calls if c.func.attr == 'append']
+                ok = all(c.args and ast.unparse(c.args[0]) == itemp for c in fast)
+                why = 'a fast path appends something other than the item' if not ok else ''
+            else:
+                why = f'insertion position `{ast.unparse(ins.args[0]) if ins.args else "?"}` is not a recognised stable insertion point (bisect_right on the keys)'
         if names == ['append', 'sort']:
             so = calls[1]
             kws = {k.arg: k.value for k in so.keywords}
@@ -284,7 +303,7 @@ def check_priority_req_store(p, r):
                     why = 'super().append does not append the item'
             else:
                 why = f'sort call `{ast.unparse(so)}` is not a plain ascending sort on .key'
-    (r.ok if ok else r.fail)('C05.R4', key, 'append then stable sort on .key' if ok else why, src(rel), ap.node.lineno if ap else 0)
+    (r.ok if ok else r.fail)('C05.R4', key, 'stable insertion by .key (append + stable sort, or bisect_right)' if ok else why, src(rel), ap.node.lineno if ap else 0)
     for cname in ('PriorityGet', 'PriorityPut'):
         ci = p.cls(rel, cname)
         init = ci.methods.get('__init__')
